@@ -65,6 +65,13 @@ def generate(seed, tier):
             ops.append(op)
         else:
             ops.append({"op": "sleep", "s": r.choice((0.0, 1.0, 11.0))})
+    if live and r.random() < 0.08:
+        # the end of the process: the main thread has returned, python has retired the worker pool (every later hand-over
+        # raises RuntimeError), a non-daemon application thread carries on and uses a handle - twice
+        victim = r.choice(live)
+        ops.append({"op": "pool-dies"})
+        ops.append({"op": "unregister", "reg": victim, "thread": 0})
+        ops.append({"op": "unregister", "reg": victim, "thread": 0})
     # the service stamps its answers with ITS clock: in step with the agent's, stuck at 0, running backwards, or jumping
     return {"ops": ops, "line_level": r.random() < 0.5, "two_threads": r.random() < 0.4,
             "svc_clock": r.choice(("steady", "steady", "zero", "backwards", "jumpy")),
@@ -171,8 +178,13 @@ def execute(s, ch):
                 except kernel.SimKilled:
                     raise
                 except BaseException as e:  # noqa
-                    if not refused(e, since):
+                    if isinstance(e, RuntimeError) and w.deep.task_handler._pool._shutdown:
+                        k.fault("refused_by_retired_pool")
+                    elif not refused(e, since):
                         errors.append(("register", repr(e)))
+            elif o["op"] == "pool-dies":
+                k.fault("worker_pool_retired")
+                w.deep.task_handler._pool._shutdown = True
             elif o["op"] == "bounce":
                 k.fault("restart")
                 down["n"] += 1
@@ -222,7 +234,9 @@ def execute(s, ch):
                 except kernel.SimKilled:
                     raise
                 except BaseException as e:  # noqa
-                    if not refused(e, since):
+                    if isinstance(e, RuntimeError) and w.deep.task_handler._pool._shutdown:
+                        k.fault("refused_by_retired_pool")     # visible, and nothing changed: the model stays as it is
+                    elif not refused(e, since):
                         errors.append(("unregister", repr(e)))
         if s["two_threads"]:
             # operations keep their program order per thread; registrations/unregistrations of one handle stay ordered
